@@ -165,10 +165,15 @@ def index_domains(ctx, P, rule="TREE-DOMAIN"):
                     continue
                 n_checked += 1
                 ok = ldom == adom
-                ctx.ob(rule, "tsk_tree_clear|%s[%s]|bound=%s" % (f, var, bound), ok, tu.loc(x),
-                       "per-%s array indexed by a counter ranging over [0, %s)" % (adom, bound) if ok else
-                       "per-%s array `%s` is indexed by `%s`, which only ranges over [0, %s): the %s entries beyond are never reset"
-                       % (adom, f, var, bound, adom))
+                init = estr(kids[0]) if kids[0] is not None else ""
+                start_ok = init == "(%s = 0)" % var
+                why = "per-%s array indexed by a counter ranging over [0, %s)" % (adom, bound)
+                if not ok:
+                    why = "per-%s array `%s` is indexed by `%s`, which only ranges over [0, %s): the %s entries beyond are never reset" % (adom, f, var, bound, adom)
+                elif not start_ok:
+                    ok = False
+                    why = "loop starts with `%s`, not at 0: the leading entries of per-%s array `%s` are never reset" % (init, adom, f)
+                ctx.ob(rule, "tsk_tree_clear|%s[%s]|bound=%s" % (f, var, bound), ok, tu.loc(x), why)
     ctx.ob(rule, "tsk_tree_clear|instances", n_checked >= 3, tu.loc(fn.node), "%d direct loop-indexed accesses analysed" % n_checked)
 
 
